@@ -535,6 +535,36 @@ class Interp:
         self.stats["forks"] += 1
         return dict(env), st.fork()
 
+    def _is_log_statement(self, n, env, ctx):
+        c = n.value
+        if not (isinstance(c, ast.Call) and isinstance(
+                c.func, ast.Attribute) and c.func.attr in (
+                    "debug", "info", "warning", "warn", "error", "exception",
+                    "critical", "log", "trace") and isinstance(
+                        c.func.value, ast.Name) and
+                c.func.value.id not in env):
+            return False
+        b = self.world.lookup(ctx["mod"], c.func.value.id)
+        v = getattr(b, "value", None) if b is not None and getattr(
+            b, "kind", None) == "expr" else None
+        if not (isinstance(v, ast.Call) and ast.unparse(v.func).endswith(
+                "getLogger")):
+            return False
+        for a in list(c.args) + [k.value for k in c.keywords]:
+            for x in ast.walk(a):
+                if isinstance(x, ast.Call) and isinstance(
+                        x.func, ast.Name) and x.func.id == "len" and len(
+                            x.args) == 1 and isinstance(
+                                x.args[0], (ast.Name, ast.Attribute)):
+                    continue        # the length of something at hand
+                if isinstance(x, (ast.Call, ast.Await, ast.Yield,
+                                  ast.YieldFrom, ast.NamedExpr)):
+                    return False
+                if isinstance(x, ast.FormattedValue) and \
+                        x.format_spec is not None:
+                    return False
+        return True
+
     def stmt(self, n, env, st, ctx):
         try:
             yield from self.stmt_(n, env, st, ctx)
@@ -544,6 +574,12 @@ class Interp:
     def stmt_(self, n, env, st, ctx):
         if isinstance(n, ast.Expr):
             if isinstance(n.value, ast.Constant):
+                yield ("next",), env, st
+                return
+            if self._is_log_statement(n, env, ctx):
+                # a record written to a module-level logger, with arguments
+                # that call nothing and format nothing eagerly: not part of
+                # what the decoder computes
                 yield ("next",), env, st
                 return
             for v, env2, st2 in self.ev(n.value, env, st, ctx):
